@@ -22,7 +22,7 @@ def run(ctx):
     ctx.prove()
     env = {}
     if ctx.tier == "quick":
-        env = {"VERIF_CERTS_HIST": "700", "VERIF_CERTS_PAIRS": "4000"}
+        env = {"VERIF_CERTS_HIST": "1000", "VERIF_CERTS_PAIRS": "5000"}
     st = ctx.correspond("h_certs", "Certs", nontrivial=r"^(val|apply|mkapply) ", env=env)
     if ctx.tier == "thorough":
         for k in (1, 2):
